@@ -8,6 +8,7 @@ PID = "C04"
 LEVEL = "other"
 CRATES = ["rlib_fft"]
 RELEASE = True
+NO_HIDDEN_STATE = ['rlib_fft']   # driver rule STATE: these crates are plain data structures / functions
 ARMED = True
 ENGINES = ["E1", "E3", "E5"]
 TECHNIQUE = "typestate over path events (tables SIZED(k) before any table read, stride divisor equal to the sized argument), event-order rule for scratch re-initialisation, store-shape rule (place = place + ..) for caller destinations incl. closure bodies, who-may-write rule for the plan tables, result-shape terms, operand-type rule on MIR multiplications"
